@@ -96,13 +96,23 @@ class Replay:
         self.built = True
         self.log(f"replay driver built in {time.time() - t0:.1f}s")
 
-    def run(self, requests, timeout=300):
-        """requests: list of dict -> list of dict (one answer per request)"""
+    def run(self, requests, timeout=600, unprivileged=False):
+        """requests: list of dict -> list of dict (one answer per request).  unprivileged: drop to uid/gid nobody when the
+        check itself runs as root, so that permission bits mean what they mean for a buildpack (root bypasses them)"""
         if not requests:
             return []
         self.build()
         inp = "\n".join(json.dumps(r) for r in requests) + "\n"
-        p = subprocess.run([self.bin], input=inp, capture_output=True, text=True, timeout=timeout, env=_env())
+        pre = None
+        env = _env()
+        if unprivileged and os.geteuid() == 0:
+            def pre():
+                os.setgroups([])
+                os.setgid(65534)
+                os.setuid(65534)
+            env["TMPDIR"] = "/tmp"
+            env["HOME"] = "/tmp"
+        p = subprocess.run([self.bin], input=inp, capture_output=True, text=True, timeout=timeout, env=env, preexec_fn=pre)
         lines = [l for l in p.stdout.split("\n") if l.strip()]
         if len(lines) != len(requests):
             raise Inconclusive(f"replay driver answered {len(lines)} of {len(requests)} requests: {p.stderr[-500:]}")
